@@ -1,7 +1,7 @@
 CONSTANTS Pgnos = {256, 257} Subnos = {0, 1, 2} Sizes = {2, 3} Fns = {"lop"} NSlots = 2 NNSlots = 2
-  MaxOps = 6 MaxPuts = 3 Limits = {4, 100} NetLimit = 1 Policy = "any" SkipCollected = TRUE
+  MaxOps = 6 MaxPuts = 3 Limits = {4, 100} NetLimit = 1 Policy = "any" SkipCollected = TRUE ExactFirst = TRUE
   GetMasks = {15, 255, 65535} ClockVals = {TRUE, FALSE} MaxNets = 4
 SPECIFICATION Spec
 CONSTRAINT Bounded
-INVARIANTS TypeOK RefsAreHandles HeldAlive ListsOK WithinLimit NetsOK StatOK NoDupVictim
+INVARIANTS TypeOK RefsAreHandles HeldAlive ListsOK WithinLimit NetsOK StatOK NoDupVictim UniqueKey
 CHECK_DEADLOCK FALSE
